@@ -30,6 +30,9 @@ SQ_SPECIAL = {"'": "closes the quote"}
 
 def run(ctx):
     ctx.rule("R20-1", "escape_path's character class contains every character of T (tokenizer specials and expansion triggers)")
+    ctx.rule("R20-4", "every test the tokenizer (parse_line, line_to_cmds) applies to the character it is reading is an "
+                      "equality with a character of the escaper's class; a character-class predicate (is_whitespace, ...) "
+                      "must not accept a character outside that class")
     ctx.rule("R20-2", "inside an open quote q, wrap_sep_string(q, name) escapes every character special inside q")
     ctx.rule("R20-3", "candidates: entries whose name starts_with the typed prefix; non-directories skipped when "
                       "for_dir; result sorted; unquoted names go through escape_path, quoted ones through wrap_sep_string")
@@ -75,6 +78,7 @@ def class_rule(ctx, crate):
         ctx.ob("R20-1", b.path, "class contains %r (%s)" % (ch, why), ok, key="R20-1|%s|missing|%s" % (b.path, ch),
                crate=crate.kind, nontrivial=False,
                detail=None if ok else "a file name containing %r is inserted unescaped and is re-read as syntax" % ch)
+    tokenizer_rule(ctx, crate, cls)
     # anchors: the tokenizer / passes still act on these characters
     consts = set()
     for p in ("parsers::parser_line::parse_line", "parsers::parser_line::line_to_cmds", "shell::expand_home",
@@ -95,6 +99,74 @@ def class_rule(ctx, crate):
     for ch in ("|", ";", "#", "'", "\"", "`", "\\", " ", "(", ")", "$", "{", "}", ",", "~", "&"):
         ctx.ob("R20-1", "tokenizer/expansion", "anchor: code still branches on %r" % ch, ch in consts,
                key="R20-1|anchor|%r" % ch, crate=crate.kind, nontrivial=False)
+
+
+# character-class predicates: the characters they accept (as far as the rule needs them).  Only the
+# whitespace family is decided: a blank is a word separator for the tokenizer whatever branch tests it.
+_UNI_WS = "\t\n\x0b\x0c\r \x85\xa0\u1680" + "".join(chr(c) for c in range(0x2000, 0x200b)) + "\u2028\u2029\u202f\u205f\u3000"
+PRED_SETS = {"is_whitespace": _UNI_WS, "is_ascii_whitespace": "\t\n\x0c\r "}
+TOKENIZERS = ("parsers::parser_line::parse_line", "parsers::parser_line::line_to_cmds")
+
+
+def _is_char_expr(b, e):
+    """a non-constant expression that denotes a character read from the line (item of chars()/enumerate())"""
+    e = mir.peel(strip_sites(e))
+    if e[0] == "const":
+        return False
+    for s in mir.subexprs(e):
+        if s[0] == "call" and last_seg(s[1]) in ("next", "nth", "peek", "last") and any(
+                k in s[1] for k in ("Enumerate", "Chars", "Iterator", "Peekable", "CharIndices")):
+            return True
+    return False
+
+
+def char_tests(b):
+    """(equality constants, predicate names) applied in branch conditions to characters of the line"""
+    eqs, preds = {}, {}
+    for x in sorted(b.reachable):
+        for tgt, atom, val in b.switch_edges(x):
+            for s in mir.subexprs(atom):
+                if s[0] == "bin" and s[1] in ("Eq", "Ne"):
+                    for u, v in ((s[2], s[3]), (s[3], s[2])):
+                        ch = const_char(v)
+                        if ch and _is_char_expr(b, u):
+                            eqs.setdefault(ch, b.loc(x))
+                elif s[0] == "call" and "char" in s[1] and last_seg(s[1]).startswith("is_") and s[2] \
+                        and _is_char_expr(b, s[2][0]):
+                    preds.setdefault(last_seg(s[1]), b.loc(x))
+                elif s[0] == "call" and last_seg(s[1]) in ("matches", "contains") and len(s[2]) == 2 and \
+                        _is_char_expr(b, s[2][0]):
+                    preds.setdefault("%s(..)" % last_seg(s[1]), b.loc(x))
+    return eqs, preds
+
+
+def tokenizer_rule(ctx, crate, cls):
+    n = 0
+    for p in TOKENIZERS:
+        b = crate.fn(p)
+        if not ctx.require(b is not None, "R20-4", "R20-4|anchor|%s" % p, "%s not found" % p):
+            continue
+        ctx.analysed(b)
+        eqs, preds = char_tests(b)
+        n += len(eqs)
+        for ch, where in sorted(eqs.items()):
+            ok = ch in cls
+            ctx.ob("R20-4", p, "tokenizer tests the character it reads against %r: the escaper covers it" % ch, ok,
+                   key="R20-4|%s|eq|%s" % (p, ch), where=where, crate=crate.kind,
+                   detail=None if ok else "a completed name containing %r is inserted unescaped and split / re-read there" % ch)
+        for name, where in sorted(preds.items()):
+            accepted = PRED_SETS.get(name)
+            if accepted is None:
+                ctx.notes.append("R20-4: %s applies the class test %s to a character; not decided (only the whitespace "
+                                 "family is)" % (p, name))
+                continue
+            missing = [c for c in accepted if c not in cls]
+            ctx.ob("R20-4", p, "class test %s accepts only characters the escaper covers" % name, not missing,
+                   key="R20-4|%s|pred|%s" % (p, name), where=where, crate=crate.kind,
+                   detail=None if not missing else "the tokenizer acts on %s, which escape_path leaves bare: a file name "
+                   "containing one (e.g. a TAB or U+3000) is completed to a word that is read back as two" %
+                   ", ".join("U+%04X" % ord(c) for c in missing[:6]))
+    ctx.floor("R20-4", crate, "tokenizer character tests", n, 20)
 
 
 def quote_rule(ctx, crate):
